@@ -8,6 +8,7 @@ CONSTANTS
   Split = TRUE
   PeekStop = TRUE
   WireGaps = FALSE
+  CutStop = TRUE
 SPECIFICATION Spec
-INVARIANTS NoPanic NoStateClobber ExactlyOneEOFLast TimingExact
+INVARIANTS NoPanic NoStateClobber ExactlyOneEOFLast TimingExact CloseStops
 CHECK_DEADLOCK TRUE
